@@ -93,7 +93,7 @@ func (g *fakeGossip) GossipUnicast(dst mesh.PeerName, msg []byte) error {
 	g.sent = append(g.sent, append([]byte{}, msg...))
 	return nil
 }
-func (g *fakeGossip) GossipBroadcast(update mesh.GossipData)          {}
+func (g *fakeGossip) GossipBroadcast(update mesh.GossipData)       {}
 func (g *fakeGossip) GossipNeighbourSubset(update mesh.GossipData) {}
 
 func main() {
